@@ -21,6 +21,7 @@ REJECT = (exc.PacketInvalid, ValueError)
 
 # array-capable codes: element size in bytes (from the statement's list)
 ARRAY_ELEM = {"0009": 3, "000A": 6, "2309": 3, "30C9": 3, "2249": 7, "22C9": 6, "3150": 2}
+ARRAY_SRC = {"0009": "01", "000A": "01", "2309": "01", "30C9": "01", "2249": "23", "22C9": "02", "3150": "02"}
 RATIO_KEYS = ("heat_demand", "relay_demand", "modulation_level", "valve_position", "rel_modulation_level")
 TEMP_KEYS = ("temperature", "setpoint", "heat_setpoint", "min_temp", "max_temp")
 
@@ -126,7 +127,10 @@ async def run_decode(ctx) -> None:
 
     def handler(msg):
         j = jdump(ctx, msg.payload, str(msg._pkt))
-        got.append((f"{msg._pkt._rssi} {msg._pkt}", j))
+        line = f"{msg._pkt._rssi} {msg._pkt}"
+        _p, m2 = decode(ctx, msg.dtm.isoformat(timespec="microseconds"), line)
+        j2 = jdump(ctx, m2.payload, line) if m2 is not None else None
+        got.append((line, j, j2))
 
     ser = ctx.hub.add_port("/dev/sim0", "18:006402")
     ctx.hub.split_mode = "all"
@@ -140,17 +144,10 @@ async def run_decode(ctx) -> None:
         ctx.hub.deliver(ser, lines[i].encode("latin-1") + b"\r\n")
         await asyncio.sleep(0.003)
     await asyncio.sleep(0.3)
-    by_line: dict[str, set] = {}
-    for text, j in got:
-        by_line.setdefault(text, set()).add(j)
-    for i in order3:
-        body = lines[i].split("#")[0].split("*")[0].split("<")[0].strip()
-        js = by_line.get(body)
-        if js is None:
-            continue  # the serial path may legitimately re-normalise the line (C01 judges delivery)
-        if js != {base[i]}:
-            ctx.violate("C05", "nondeterministic", "live_vs_isolated", f"{lines[i]!r}: isolated {base[i][:300]} live "
-                        f"{sorted(x or '' for x in js)[0][:300]}")
+    for text, j, j2 in got:
+        if j != j2:  # same packet, same timestamp: decoded by the live stack vs decoded on its own
+            ctx.violate("C05", "nondeterministic", "live_vs_isolated", f"{text!r}: live {str(j)[:300]} isolated {str(j2)[:300]}")
+    ctx.probe("live_decodes_compared", len(got))
     tr.close()
     await asyncio.sleep(0.05)
     ctx.ab(f"decode:{len(lines)}:{len(base)}")
@@ -185,6 +182,9 @@ def check_array(ctx, pkt, msg, dtm: str, line: str) -> None:
     code = pkt.code
     if code not in ARRAY_ELEM or pkt.verb != " I" or not isinstance(msg.payload, list):
         return
+    if pkt.src.type != ARRAY_SRC[code] or pkt.src.id != pkt.dst.id:
+        ctx.probe("array_from_odd_source_not_judged")
+        return
     n = ARRAY_ELEM[code] * 2
     raw = pkt.payload
     if len(raw) % n or len(raw) // n != len(msg.payload):
@@ -204,6 +204,7 @@ def check_array(ctx, pkt, msg, dtm: str, line: str) -> None:
             if len(one) != 1:
                 continue
             one = one[0]
+        one = {k_: v for k_, v in one.items() if k_ != "seqx_num"} if isinstance(one, dict) else one  # frame metadata
         if json.dumps(one, sort_keys=True, default=str) != json.dumps(msg.payload[k], sort_keys=True, default=str):
             ctx.violate("C05", "elementwise", code, f"{line!r}: element {k} decodes to {msg.payload[k]!r} in the array but "
                         f"to {one!r} on its own ({single!r})")
@@ -280,24 +281,27 @@ async def run_logrt(ctx) -> None:
     body = "\n".join(text_lines) + "\n"
     proto2 = _P(lambda m: None)
     T.FileTransport(io.TextIOWrapper(io.BytesIO(body.encode("latin-1")), encoding="latin-1"), proto2, loop=loop)
+    await asyncio.sleep(0.001)  # connection_made() is call_soon'ed; only then is there a future to wait on
     try:
         err = await proto2.wait_for_connection_lost(timeout=60)
     except Exception as e:  # noqa
         err = e
     if err is not None:
         ctx.violate("C02", "log_replay_cut", exc_sig(err) if isinstance(err, BaseException) else "", f"{err}")
+    # a bare CR (or VT/FF) inside a received line survives into the text log as a line break
+    ctl = "embedded_cr" if any(any(c in ln.rstrip("\r") for c in "\r\x0b\x0c") for ln in lines) else ""
     live_pkts = [(k, t) for (k, t) in live if " 7FFF " not in k[1]]
     got_pkts = [(k, t) for (k, t) in got if " 7FFF " not in k[1]]
     if [k for k, _ in got_pkts] != [k for k, _ in live_pkts]:
         i = next((i for i, (a, b) in enumerate(zip(got_pkts, live_pkts)) if a[0] != b[0]), min(len(got_pkts), len(live_pkts)))
-        ctx.violate("C02", "log_roundtrip", "sequence", f"replay of the packet log gives {len(got_pkts)} packets, the live session "
+        ctx.violate("C02", "log_roundtrip", "sequence" + (":" + ctl if ctl else ""), f"replay of the packet log gives {len(got_pkts)} packets, the live session "
                     f"saw {len(live_pkts)}; first difference at #{i}: replay={got_pkts[i][0] if i < len(got_pkts) else None} "
                     f"live={live_pkts[i][0] if i < len(live_pkts) else None}; files={names}")
     else:
         prev = None
         for (k, t_rep), (_, t_live) in zip(got_pkts, live_pkts):
             delta = (t_rep - t_live).total_seconds()
-            if not (-0.0 <= delta < 0.0011 + 0.05):
+            if not (0.0 <= delta < 0.002):
                 ctx.violate("C02", "log_roundtrip", "timestamp", f"{k[1]!r}: live dtm {t_live.isoformat()} replayed as "
                             f"{t_rep.isoformat()} (delta {delta:+.6f}s)")
                 break
@@ -312,7 +316,7 @@ async def run_logrt(ctx) -> None:
         try:
             _dt.datetime.fromisoformat(ln[:26])
         except ValueError:
-            ctx.violate("C02", "log_line_format", "", f"log line does not start with a 26-char timestamp: {ln!r}")
+            ctx.violate("C02", "log_line_format", ctl, f"log line does not start with a 26-char timestamp: {ln!r}")
             break
     for e in ctx.loop_excs:
         ctx.probe("loop_exc_during_logrt")
